@@ -87,7 +87,7 @@ def run(ctx):
             if isinstance(res2, str) or not ctx.vec_close(res2, want2, scale):
                 ctx.mismatch("after an in-place edit of the provenance, bruteforce scores are not the Shapley value for the edited formulas",
                              dict(case, edit=dict(row=i, expr=e2), table2=tables.table_json(table2)), impl=res2, spec=[str(x) for x in want2])
-        if ctx.elapsed() > (100 if q else 900):
+        if ctx.elapsed() > (400 if q else 1800):
             break
     return ctx.finish("proof", "C03_main: for every game the modelled accumulation with factor_0/factor_1 over all 2^n assignments equals the textbook Shapley sum; failures "
                       "of the three caught kinds are worth the null score, anything else propagates (C03_uncaught). This run tied the model to method='bruteforce'.", RULE)
